@@ -452,6 +452,55 @@ class Transformer:
         self._member_cache[key] = out
         return out
 
+    def returned_fields(self, cls: str, member: str, _depth=0) -> Set[str]:
+        """Fields whose value (or an attribute of it) is what ``obj.member`` evaluates to
+        on some path -- as opposed to fields merely consulted while computing it."""
+        ix = self.ix
+        fields = set(ix.init_fields(cls))
+        if member in fields:
+            return {member}
+        fi = ix.find_method(cls, member)
+        out: Set[str] = set()
+        if fi is None or _depth > 5 or not fi.params:
+            return out
+        s = fi.params[0]
+
+        def base(e):
+            while isinstance(e, ast.Attribute) and not (isinstance(e.value, ast.Name) and e.value.id == s):
+                e = e.value
+            return e
+
+        for st in iter_stmts(fi.body):
+            vals = []
+            if isinstance(st, ast.Return) and st.value is not None:
+                vals = [st.value]
+            elif isinstance(st, ast.Expr) and isinstance(st.value, (ast.Yield, ast.YieldFrom)) and st.value.value is not None:
+                vals = [st.value.value]
+            for v in vals:
+                if isinstance(v, ast.Call):
+                    f_ = v.func
+                    if isinstance(f_, ast.Attribute) and isinstance(f_.value, ast.Name) and f_.value.id == s:
+                        out |= self.returned_fields(cls, f_.attr, _depth + 1)
+                        continue
+                    if isinstance(f_, ast.Name) and f_.id in ("iter", "len", "list", "tuple") and v.args:
+                        v = v.args[0]
+                    elif isinstance(f_, ast.Attribute):
+                        v = f_.value
+                if isinstance(v, ast.Subscript):
+                    v = v.value
+                b = base(v)
+                if isinstance(b, ast.Attribute) and isinstance(b.value, ast.Name) and b.value.id == s:
+                    if b.attr in fields:
+                        out.add(b.attr)
+                    else:
+                        out |= self.returned_fields(cls, b.attr, _depth + 1)
+                elif isinstance(v, (ast.Compare, ast.BoolOp, ast.UnaryOp)):
+                    # a predicate over fields (e.g. `fundamental`): the fields it tests
+                    for n in ast.walk(v):
+                        if isinstance(n, ast.Attribute) and isinstance(n.value, ast.Name) and n.value.id == s:
+                            out |= self.returned_fields(cls, n.attr, _depth + 1) if n.attr not in fields else {n.attr}
+        return out
+
     def container_fields(self, cls: str) -> Set[str]:
         out = set()
         for m in ("__iter__", "__getitem__", "__len__"):
